@@ -124,6 +124,11 @@ func (f *Fam) Gen(r *rand.Rand, i int) string {
 	if r.Intn(10) == 0 {
 		return genAstruct(r)
 	}
+	if r.Intn(10) == 0 {
+		if op := genAstdtx(r); op != "" {
+			return op
+		}
+	}
 	if r.Intn(12) == 0 { // the text form of a coin, well formed and not
 		if r.Intn(4) == 0 {
 			return "coin.text " + coin()
@@ -278,6 +283,8 @@ func (f *Fam) Exec(op string) (obs string, fails []common.Failure) {
 		return execAmsg(w), nil
 	case "astruct":
 		return execAstruct(w), nil
+	case "astdtx":
+		return execAstdtx(w), nil
 	case "uv":
 		n, _ := strconv.ParseUint(w[1], 10, 64)
 		bz := amino.MustMarshalBinaryBare(n) // bare uint64 = uvarint
@@ -467,6 +474,9 @@ func (f *Fam) Class(op, obs string) string {
 	}
 	if w[0] == "amsg" || w[0] == "astruct" {
 		return w[0] + "/" + w[1]
+	}
+	if w[0] == "astdtx" {
+		return "astdtx/" + fmt.Sprint(len(w)-7) + "-coin-fee"
 	}
 	o := "ok"
 	if strings.HasPrefix(obs, "err") || strings.HasPrefix(obs, "panic") {
